@@ -130,3 +130,26 @@ def text_projection(data: dict):
 def make_twin(data: dict) -> Acl:
     """A fresh object built from exported state only (no history)."""
     return Acl(**fastcopy(data))
+
+
+def make_twin_structured(data: dict) -> Acl:
+    """A fresh object built from exported state only, block by block.
+
+    Acl(**data) regroups loose entries under group_by, so a state in which a loose entry stands
+    next to a block cannot be rebuilt that way.  Here every top-level item is rebuilt on its own
+    from its exported dict and the list is filled through the public list API.
+    """
+    d = fastcopy(data)
+    items = d.pop("items")
+    d["line"] = d["line"].split("\n")[0]
+    tw = Acl(**d)
+    objs = []
+    for it in items:
+        if isinstance(it.get("items"), list) and "action" not in it:
+            objs.append(AceGroup(**it))
+        elif it.get("action") == "remark":
+            objs.append(Remark(**it))
+        else:
+            objs.append(Ace(**it))
+    tw.extend(objs)
+    return tw
